@@ -82,8 +82,14 @@ func verifHarnessC10() {
 		}
 	}
 	seek := func() {
-		tl := 1 + verifChoice("tlen", 2)
-		t := verifBytes("target", tl)
+		var t []byte
+		if verifParam("ckeys") > 0 && verifChoice("tpool", 2) == 1 {
+			// concrete key families: the target is one of the (long) pool keys itself
+			t = kp.keys[verifChoice("tki", len(kp.keys))]
+		} else {
+			tl := 1 + verifChoice("tlen", 2)
+			t = verifBytes("target", tl)
+		}
 		// the property's own restriction: the target lies at or ahead of the cursor in iteration order
 		if pos < len(exp) && pos > 0 {
 			cur := kp.keys[exp[pos]]
